@@ -306,7 +306,7 @@ func check(c Case) error {
 }
 
 func genCase(t *rapid.T, thorough bool) Case {
-	o := gen.Opts{MinTips: 4, MaxTips: 12, BigTips: 24, Rooted: 0, MaxDeg: 4, Lens: gen.All, LenVals: gen.DyadicZ}
+	o := gen.Opts{MinTips: 4, MaxTips: 12, BigTips: 24, Rooted: -1, MaxDeg: 4, Lens: gen.All, LenVals: gen.DyadicZ}
 	base := gen.Tree(t, o)
 	c := Case{Func: rapid.SampledFrom([]string{"compare", "weighted", "fbp", "tbe"}).Draw(t, "func"), Ref: base,
 		Threads: rapid.SampledFrom([]int{2, 3, 4, 8, 16, 64}).Draw(t, "threads"),
